@@ -34,6 +34,9 @@ func init() {
 	register("C04", func(s *simrt.Sim) *Result {
 		return RunRoute(s, RouteProfile{Name: "C04", Faults: true, Cleanup: true})
 	})
+	register("ROUTEmulti", func(s *simrt.Sim) *Result {
+		return RunRoute(s, RouteProfile{Name: "ROUTEmulti", Multi: true, NoAckTarget: true, Liveness: true, CheckC02End: true, CheckC05: true})
+	})
 	register("C04bias", func(s *simrt.Sim) *Result {
 		return RunRoute(s, RouteProfile{Name: "C04bias", Faults: true, BiasFaults: true, Cleanup: true})
 	})
